@@ -321,6 +321,92 @@ def p_contradictions(wd, _):
     return probs
 
 
+def _same(a, b, what):
+    if a != b:
+        la, lb = a.split(b"\n"), b.split(b"\n")
+        k = next((i for i in range(min(len(la), len(lb))) if la[i] != lb[i]), min(len(la), len(lb)))
+        return ["%s: line %d: %r vs %r" % (what, k + 1, la[k][:80] if k < len(la) else b"", lb[k][:80] if k < len(lb) else b"")]
+    return []
+
+
+def p_directives(wd, which):
+    """spellings outside %option and the command line: the lex-style directives %array / %pointer, the table-size
+    declarations of AT&T lex (%e 1000 ... : accepted and ignored), the default output name (lex.yy.c, lex.<prefix>.c,
+    lex.yy.cc), the program name flex++ (= -+), and outfile / header-file given as %option"""
+    base = "%option noyywrap nounput noinput"
+    if which in ("array", "pointer"):
+        # line 2 is '%option <which>' in one file and the bare directive in the other: the same scanner, byte for byte
+        t1 = spec().replace(base, base + "\n%option " + which)
+        t2 = spec().replace(base, base + "\n%" + which)
+        rc1, e1 = flex(wd, t1, [], name="o")
+        rc2, e2 = flex(wd, t2, [], name="c")
+        if rc1 != 0 or rc2 != 0:
+            return ["%%option %s exits %s, the directive %%%s exits %s (%s)" % (which, rc1, which, rc2, (e1 + e2).strip()[:120])]
+        a = open(os.path.join(wd, "o.c"), "rb").read().replace(b"o.c", b"X.c").replace(b"o.l", b"X.l")
+        b = open(os.path.join(wd, "c.c"), "rb").read().replace(b"c.c", b"X.c").replace(b"c.l", b"X.l")
+        return _same(a, b, "%%option %s and the directive %%%s generate different scanners" % (which, which))
+    if which == "lex-sizes":
+        t1 = spec().replace(base, base + "\n" + "\n".join(["%option noyywrap"] * 6))
+        t2 = spec().replace(base, base + "\n%e 1000\n%p 2500\n%n 500\n%k 100\n%a 3000\n%o 4000")
+        rc1, e1 = flex(wd, t1, [], name="o")
+        rc2, e2 = flex(wd, t2, [], name="c")
+        if rc1 != 0 or rc2 != 0:
+            return ["table-size declarations of AT&T lex are not accepted: exit %s / %s (%s)" % (rc1, rc2, (e1 + e2).strip()[:120])]
+        a = open(os.path.join(wd, "o.c"), "rb").read().replace(b"o.c", b"X.c").replace(b"o.l", b"X.l")
+        b = open(os.path.join(wd, "c.c"), "rb").read().replace(b"c.c", b"X.c").replace(b"c.l", b"X.l")
+        return _same(a, b, "%e/%p/%n/%k/%a/%o lines change the scanner")
+    if which.startswith("default-name"):
+        # no -o: lex.yy.c (C), lex.<prefix>.c with a prefix, lex.yy.cc for C++
+        args, want, opts = {"default-name": ([], "lex.yy.c", ""), "default-name-prefix": (["-Pzz"], "lex.zz.c", ""),
+                            "default-name-prefix-opt": ([], "lex.qq.c", 'prefix="qq"'),
+                            "default-name-cxx": (["-+"], "lex.yy.cc", "")}[which]
+        with open(os.path.join(wd, "p.l"), "w") as f:
+            f.write(spec(opts))
+        rc, out, err = run([_FLEX] + args + ["p.l"], cwd=wd, timeout=60)
+        if rc != 0:
+            return ["flex %s p.l exits %s: %s" % (" ".join(args), rc, err.decode(errors="replace")[:120])]
+        made = sorted(f for f in os.listdir(wd) if f != "p.l")
+        if made != [want]:
+            return ["flex %s p.l (no -o) wrote %s, the manual names %s" % (" ".join(args), made, want)]
+        rc, out, err = run([_FLEX] + args + ["-o", "n.out", "p.l"], cwd=wd, timeout=60)
+        a = open(os.path.join(wd, want), "rb").read().replace(want.encode(), b"X")
+        b = open(os.path.join(wd, "n.out"), "rb").read().replace(b"n.out", b"X")
+        return _same(a, b, "the scanner written under the default name differs from the one written with -o")
+    if which == "flex++":
+        os.symlink(_FLEX, os.path.join(wd, "flex++"))
+        with open(os.path.join(wd, "p.l"), "w") as f:
+            f.write(spec())
+        rc1, o1, e1 = run([os.path.join(wd, "flex++"), "-o", "a.cc", "p.l"], cwd=wd, timeout=60)
+        rc2, o2, e2 = run([_FLEX, "-+", "-o", "b.cc", "p.l"], cwd=wd, timeout=60)
+        if rc1 != 0 or rc2 != 0:
+            return ["flex++ exits %s, flex -+ exits %s (%s)" % (rc1, rc2, (e1 + e2).decode(errors="replace")[:120])]
+        a = open(os.path.join(wd, "a.cc"), "rb").read().replace(b"a.cc", b"X")
+        b = open(os.path.join(wd, "b.cc"), "rb").read().replace(b"b.cc", b"X")
+        return _same(a, b, "invoked as flex++ the program does not behave as flex -+")
+    if which == "outfile-opt":
+        with open(os.path.join(wd, "p.l"), "w") as f:
+            f.write(spec('outfile="named.c" header-file="named.h"'))
+        with open(os.path.join(wd, "q.l"), "w") as f:
+            f.write(spec() .replace(base, base + " " * len(' outfile="named.c" header-file="named.h"')))
+        rc1, o1, e1 = run([_FLEX, "p.l"], cwd=wd, timeout=60)
+        if rc1 != 0:
+            return ["%%option outfile= header-file= : exit %s %s" % (rc1, e1.decode(errors="replace")[:120])]
+        made = sorted(f for f in os.listdir(wd) if f not in ("p.l", "q.l"))
+        if made != ["named.c", "named.h"]:
+            return ["%%option outfile=\"named.c\" header-file=\"named.h\" wrote %s" % made]
+        os.makedirs(os.path.join(wd, "cli"))
+        rc2, o2, e2 = run([_FLEX, "-o", "named.c", "--header-file=named.h", "../q.l"], cwd=os.path.join(wd, "cli"), timeout=60)
+        if rc2 != 0:
+            return ["-o named.c --header-file=named.h: exit %s" % rc2]
+        probs = []
+        for fn in ("named.c", "named.h"):
+            a = open(os.path.join(wd, fn), "rb").read().replace(b"p.l", b"X.l")
+            b = open(os.path.join(wd, "cli", fn), "rb").read().replace(b"../q.l", b"X.l")
+            probs += _same(a, b, "%s written through %%option differs from the one written through the command line" % fn)
+        return probs
+    return ["harness-error unknown directive probe " + which]
+
+
 def p_cli_vs_option(wd, arg):
     """the same scanner, byte for byte, from --name and from %option name"""
     name, need = arg
@@ -369,7 +455,9 @@ PROBES = [("nodefault", p_nodefault, [(b, h) for b in ("nr", "r", "c99", "cxx") 
           ("lex-compat", p_lex_compat, ["opt", "cli"]), ("prefix", p_prefix, [("nr", ""), ("r", ""), ("r", "bison-bridge"), ("r", "bison-bridge bison-locations"), ("nr", "stack yylineno"),
                                                                        ("r", "stack yylineno"), ("nr", "array"), ("r", "tables-file=\"zz.tbl\""), ("nr", "tables-file=\"zz.tbl\"")]), ("yylmax", p_yylmax, [None]), ("bufsize", p_bufsize, [None]),
           ("splices", p_splices, ["nr", "r"]), ("post-action", p_post_action, [None]), ("user-routines", p_user_routines, ["nr", "r", "c99"]),
-          ("header-file", p_header, ["nr", "r"]), ("bison", p_bison, ["bridge", "locations"]), ("contradictions", p_contradictions, [None])]
+          ("header-file", p_header, ["nr", "r"]), ("bison", p_bison, ["bridge", "locations"]), ("contradictions", p_contradictions, [None]),
+          ("directives", p_directives, ["array", "pointer", "lex-sizes", "default-name", "default-name-prefix", "default-name-prefix-opt",
+                                        "default-name-cxx", "flex++", "outfile-opt"])]
 
 
 def _dispatch(job):
